@@ -204,6 +204,11 @@ class ExcelCompiler:
             else:
                 return a_cell.value
 
+        # extra_data keeps the keys added here, take them out to add them in
+        # the same order each time, so that an unchanged model saves unchanged
+        for key in ('cycles', 'excel_hash', 'cell_map', 'filename'):
+            extra_data.pop(key, None)
+
         extra_data.update(dict(
             cycles=self.cycles,
             excel_hash=self._excel_file_md5_digest,
